@@ -277,6 +277,7 @@ pub fn exact2(job: &Value) {
         };
         let mut acc: Vec<u128> = vec![0; kmax + 2]; // index k for k <= kmax, kmax+1 = beyond
         let mut rejected_before_second = 0u64;
+        let mut nonfinite: u128 = 0; // induced mass (in 2^-48 units) on NaN / infinite outputs
         let mut nonmono = 0u64;
         let mut calls = 0u64;
         let top = (1u64 << 24) - 1;
@@ -290,6 +291,9 @@ pub fn exact2(job: &Value) {
             if n0 == 1 {
                 // returned without an acceptance draw (Zeta: infinite proposal)
                 acc[slot(x0)] += 1 << 24;
+                if !x0.is_finite() {
+                    nonfinite += 1 << 24;
+                }
                 continue;
             }
             if n0 != 2 {
@@ -321,9 +325,12 @@ pub fn exact2(job: &Value) {
                 lo + 1
             };
             acc[slot(x0)] += cnt as u128;
+            if !x0.is_finite() {
+                nonfinite += cnt as u128;
+            }
         }
         emit(&json!({"ev": "exact2", "case_idx": idx, "case": case.to_json(), "kmax": kmax, "acc": acc.iter().map(|a| a.to_string()).collect::<Vec<_>>(),
-                     "rejected_outright": rejected_before_second, "nonmonotone": nonmono, "calls": calls, "sig": signature(&Dist::F32(d).debug())}));
+                     "rejected_outright": rejected_before_second, "nonfinite": nonfinite.to_string(), "nonmonotone": nonmono, "calls": calls, "sig": signature(&Dist::F32(d).debug())}));
         flush();
     }
     emit(&json!({"ev": "done"}));
